@@ -274,6 +274,8 @@ class Impl:
                 if r.startswith("a:"):
                     a = self.get(r[2:], FlodymArray)
                     kw[names.pop(0)] = StockArray(dims=a.dims, values=a.values.copy())
+                elif r.startswith("p:"):
+                    kw[names.pop(0)] = self.get(r.split(":", 2)[2], FlodymArray)      # the object as it is
                 elif r.startswith("l:"):
                     lm = FixedLifetime(dims=self.get(r[2:], DimensionSet), time_letter=t[2], mean=2.0)
             if lm is not None:
